@@ -229,6 +229,17 @@ class Opq:
 RAISE = Opq('RAISE')
 
 
+class Raised(Exception):
+    """an exception of the analysed program that the evaluator can decide (lookup of a missing constant key in a literal dictionary, an explicit
+    raise inside a try): unwinds to the enclosing `try` of the ANALYSED code, or to the entry call (which then yields RAISE)"""
+    def __init__(s, kind, detail=''):
+        super().__init__(kind); s.kind = kind; s.detail = detail
+
+
+EXC_PARENTS = {'KeyError': ('LookupError', 'Exception', 'BaseException'), 'IndexError': ('LookupError', 'Exception', 'BaseException'), 'TypeError': ('Exception', 'BaseException'),
+               'ValueError': ('Exception', 'BaseException'), 'AttributeError': ('Exception', 'BaseException'), 'ZeroDivisionError': ('ArithmeticError', 'Exception', 'BaseException')}
+
+
 def _assume(v, gk, val):
     """simplify term v knowing that the guard with key gk has truth value val"""
     if isinstance(v, Cond):
@@ -371,8 +382,11 @@ class Evaluator:
         s.assume_finite = True             # np.isfinite(x) folds to True (recorded by the rules as an assumption)
         s.raises: list = []                # pruned raise branches: guard, polarity, exception name, path condition
         s._pc: list = []
+        s.raise_lookup_errors = False      # True: a decidable KeyError outside any try ends the evaluation (RAISE) instead of yielding an opaque value
         s.inline_str_classes: set = set()    # classes whose __str__ is unfolded when an instance is formatted (default: str(obj) stays a symbolic part)
         s.inline_self_methods: set = set()   # public methods of the class under analysis that are inlined as well (by default only private helpers are)
+        s.last_raise = None        # name of the exception class of the last raise that ended an evaluation
+        s._try_depth = 0
         s.atom_calls: list = []     # (receiver atom, method, args, kw) of every method called on an uninterpreted object, in evaluation order
         s.atom_methods: dict = {}   # (atom, method name) -> (Module, FunctionDef): methods of a typed atom that are inlined (self = the atom)
         s.builds: list = []      # every array-build term created, in order of creation (dicts: name, term, mod, line)
@@ -1023,6 +1037,7 @@ class Evaluator:
             for kk, vv in v.items():
                 if same(kk.v if isinstance(kk, _HK) else kk, k): return vv
             if not has_opaque(k) and all(isinstance(kk, (str, int, bool)) for kk in v) and isinstance(k, str):
+                if s._try_depth > 0 or s.raise_lookup_errors: raise Raised('KeyError', k)
                 return Opq('KeyError', k)
             return Opq('dispatch', v, k)
         if isinstance(v, (tuple, list)) and isinstance(k, Poly) and k.real_const() is not None:
@@ -1110,6 +1125,11 @@ class Evaluator:
                     # symbolic key: the entry when the key is present, the default otherwise
                     return s.mkcond(Opq('in', args[0], recv), r, args[1] if len(args) > 1 else None)
                 return r
+            if attr == 'pop' and args and isinstance(args[0], str) and all(isinstance(kk, (str, int, bool)) for kk in recv):
+                if args[0] in recv: return recv.pop(args[0])
+                if len(args) > 1: return args[1]
+                if s._try_depth > 0 or s.raise_lookup_errors: raise Raised('KeyError', args[0])
+                return Opq('KeyError', args[0])
             if attr == 'keys': return list(k.v if isinstance(k, _HK) else k for k in recv)
             if attr == 'values': return list(recv.values())
             if attr == 'items': return [(k.v if isinstance(k, _HK) else k, v) for k, v in recv.items()]
@@ -1301,11 +1321,26 @@ class Evaluator:
             return Opq('type', a)
         if name == 'sorted' and len(args) == 1 and not kw and isinstance(a, (list, tuple)) and all(isinstance(x, str) for x in a):
             return sorted(a)
+        if name in ('any', 'all', 'sum', 'min', 'max', 'sorted', 'tuple') and args and isinstance(args[0], Comp) and args[0].kind == 'gen':
+            args = [Comp(args[0].elt, args[0].gens, 'list')] + list(args[1:])          # a generator argument is consumed like the list
+            a = args[0]
         if name in ('min', 'max', 'sorted', 'set', 'len', 'any', 'all') and len(args) == 1 and not kw:
             a_ = args[0]
             while isinstance(a_, Opq) and a_.k and a_.k[0] in ('list', 'keys', 'tuple', 'iter') and len(a_.k) == 2 and not (name in ('sorted', 'set', 'len') and a_.k[0] != 'keys'):
                 a_ = a_.k[1]        # min(d.keys()) == min(list(d)) == min(d)
             args = [a_]
+        if name == 'zip' and len(args) == 2 and not kw:
+            # zip(L, itertools.count())  ==  ((x, i) for i, x in enumerate(L))
+            def is_count(v_):
+                at_ = v_.as_atom() if isinstance(v_, Poly) else None
+                return isinstance(at_, tuple) and at_[:2] == ('call', ('ext', 'itertools.count')) and (not at_[2] or at_[2] == (('poly',),)) and not at_[3]
+            for i_, j_ in ((0, 1), (1, 0)):
+                if is_count(args[j_]) and not is_count(args[i_]):
+                    en_ = Opq('enumerate', _iter_view(args[i_]))
+                    idx_, el_ = s.elem_of(en_, 0)
+                    return Comp((el_, idx_) if i_ == 0 else (idx_, el_), [(en_, [])], 'list')
+        if name == 'dict' and len(args) == 1 and not kw and isinstance(a, Comp) and a.kind in ('list', 'gen') and isinstance(a.elt, (tuple, list)) and len(a.elt) == 2:
+            return Comp(tuple(a.elt), a.gens, 'dict')
         if name == 'zip' and set(kw) <= {'strict'}: kw = {}                  # strict only adds a length check
         if name == 'enumerate' and kw.get('start') is not None and isinstance(kw['start'], Poly) and kw['start'].is_zero(): kw = {}
         if name == 'filter' and len(args) == 2 and not kw and isinstance(args[0], (Closure, Ref)):
@@ -1462,6 +1497,15 @@ class Evaluator:
 
     # ------------------------------------------------------------------ functions and statements
     def call_fn(s, fn, mod, args, kw, closure_env, depth):
+        if depth <= 1 and s._try_depth == 0:
+            try:
+                return s._call_fn(fn, mod, args, kw, closure_env, depth)
+            except Raised as ex:
+                s.last_raise = ex.kind
+                return RAISE
+        return s._call_fn(fn, mod, args, kw, closure_env, depth)
+
+    def _call_fn(s, fn, mod, args, kw, closure_env, depth):
         if isinstance(fn, ast.Lambda):
             env = s.bind_params(fn, mod, args, kw, closure_env, depth)
             return s.ev(fn.body, env, mod, depth)
@@ -1481,8 +1525,13 @@ class Evaluator:
             if k in pos or k in kwonly: env[k] = v
             else: extra[k] = v
         if kwarg: env[kwarg] = extra
+        elif extra and s._try_depth > 0 and not any(k == '**' or not isinstance(k, str) for k in extra):
+            raise Raised('TypeError', f"unexpected keyword argument {sorted(extra)[0]!r}")       # decidable: the signature is known
+        if len(args) > len(pos) and not vararg and s._try_depth > 0: raise Raised('TypeError', 'too many positional arguments')
         for p in pos + kwonly:
-            if p not in env: env[p] = Opq('?', 'missing-arg ' + p)
+            if p not in env:
+                if s._try_depth > 0 and '**' not in kw: raise Raised('TypeError', f'missing argument {p!r}')
+                env[p] = Opq('?', 'missing-arg ' + p)
         return env
 
     def block(s, stmts, env, mod, depth):
@@ -1491,7 +1540,10 @@ class Evaluator:
             rest = stmts[i + 1:]
             if isinstance(st, ast.Return):
                 return s.ev(st.value, env, mod, depth) if st.value is not None else None
-            if isinstance(st, ast.Raise): return RAISE
+            if isinstance(st, ast.Raise):
+                s.last_raise = _exc_name(st)
+                if s._try_depth > 0 and st.exc is not None: raise Raised(s.last_raise)
+                return RAISE
             if isinstance(st, ast.Continue): return FALL
             if isinstance(st, ast.Break):
                 if s._build is not None: s._build['ok'] = False
@@ -1571,7 +1623,25 @@ class Evaluator:
                 chain = _match_as_ifs(st)
                 if chain is not None: return s.block(chain + rest, env, mod, depth)
             elif isinstance(st, ast.Try):
-                return s.block(st.body + st.orelse + st.finalbody + rest, env, mod, depth)
+                # the body runs with the analysed program's handlers armed: a decidable exception raised before the marker statement is
+                # dispatched to the first matching handler; anything raised after the marker belongs to the code that FOLLOWS the try
+                marker = ast.Pass(); marker._try_end = True
+                done = [False]
+                s._try_markers = getattr(s, '_try_markers', {}); s._try_markers[id(marker)] = done
+                s._try_depth += 1; armed = True
+                try:
+                    return s.block(st.body + [marker] + st.orelse + st.finalbody + rest, env, mod, depth)
+                except Raised as ex:
+                    if done[0]: raise
+                    if armed: s._try_depth -= 1; armed = False
+                    for h in st.handlers:
+                        names = [] if h.type is None else [ast.unparse(x).split('.')[-1] for x in (h.type.elts if isinstance(h.type, ast.Tuple) else [h.type])]
+                        if h.type is None or ex.kind in names or any(pn in names for pn in EXC_PARENTS.get(ex.kind, ('Exception', 'BaseException'))):
+                            if h.name: env[h.name] = Opq('exc', ex.kind)
+                            return s.block(h.body + st.finalbody + rest, env, mod, depth)
+                    raise
+                finally:
+                    if armed and not done[0]: s._try_depth -= 1
             elif isinstance(st, ast.With):
                 for it in st.items:
                     if it.optional_vars is not None: s.assign(it.optional_vars, s.ev(it.context_expr, env, mod, depth), env, mod, depth)
@@ -1590,6 +1660,10 @@ class Evaluator:
                 env[st.name] = fv_
             elif isinstance(st, ast.Expr):
                 if s.expr_stmt(st.value, env, mod, depth) is RAISE: return RAISE        # a helper that raises on every path (a validation routine)
+            elif isinstance(st, ast.Pass) and getattr(st, '_try_end', False):
+                mk = getattr(s, '_try_markers', {}).get(id(st))
+                if mk is not None and not mk[0]:
+                    mk[0] = True; s._try_depth -= 1        # the try body is over: its handlers are disarmed
             elif isinstance(st, (ast.Pass, ast.Import, ast.ImportFrom, ast.Global, ast.Nonlocal, ast.Assert, ast.Delete, ast.ClassDef)):
                 if isinstance(st, ast.ImportFrom):
                     # function-local import: bind through a temporary module view
